@@ -51,7 +51,8 @@ class Prop(BaseProp):
             # (one tree in four has sub-directories that are symbolic links to other directories of the tree; they are
             #  directories of the input only if input.follow_symlinks is on)
             tree = gen_tree(rng, max_depth=rng.choice([1, 2, 3, 4]), case_twins=rng.random() < 0.3, index_module=rng.random() < 0.1, symlinks=rng.random() < 0.3,
-                            dirlinks=rng.random() < 0.25, follow=rng.random() < 0.5)
+                            dirlinks=rng.random() < 0.25, follow=rng.random() < 0.5,
+                            deep_chain=rng.choice([0] * 30 + [18, 34, 40]), many_files=rng.choice([0] * 30 + [20, 40, 300]))
             recursive = rng.random() < 0.7
             auto = rng.random() < 0.6
         if idx < self.NR[self.tier] and rng.random() < 0.35:
@@ -81,8 +82,9 @@ class Prop(BaseProp):
         res.see("order_modes", order_mode)
         with runner.sandbox() as sb:
             # (the directory above the input may carry characters that are special in glob patterns: a path is a path)
-            wname = rng.choice(["work", "work", "work", "work[v2]", "wo*k", "w?rk", "work{a,b}"])
-            res.see("input_parent_directory_names", wname)
+            wname = rng.choice(["work", "work", "work", "work[v2]", "wo*k", "w?rk", "work{a,b}",
+                                os.path.join(*(["deep"] + [f"p{k}" for k in range(36)]))])        # (... or sit 37 directories further down)
+            res.see("input_parent_directory_names", wname if len(wname) < 20 else "<37 directories deep>")
             inp = os.path.join(sb, wname, "proj")
             if outmode == "nested" and idx < self.NR[self.tier] and rng.random() < 0.5:
                 # sibling of the (nested) output directory whose name merely starts with the output directory's name
@@ -149,9 +151,13 @@ class Prop(BaseProp):
             writes = {os.path.normpath(os.path.relpath(p, out_abs)) for ev, p, _ in fr.audit
                       if ev == "open-write" and (p + os.sep).startswith(out_abs + os.sep)}
             res.count("audit_write_events", sum(1 for ev, _, _ in fr.audit if ev == "open-write"))
-            if writes != got:
-                res.violate("audit-log-vs-snapshot", f"written per audit hook {sorted(writes - got)} not present; present "
-                            f"but never opened for writing {sorted(got - writes)}", wit)
+            if writes - got:
+                # opened for writing inside the output directory, gone afterwards: something was written and removed again
+                res.violate("audit-log-vs-snapshot", f"written per audit hook but not present afterwards: {sorted(writes - got)}", wit)
+            elif got - writes:
+                # files that this process never opened (e.g. written by a child process): the two monitors disagree about
+                # HOW the files got there, the snapshot remains the authority on WHAT is there -- counted, not a violation
+                res.count("runs_where_the_audit_hook_missed_writes")
             # page == single-file page (sample)
             pages = sorted(ref.pages)
             for p in rng.sample(pages, min(2, len(pages))):
